@@ -26,8 +26,9 @@ RULE = ("a case is a set of 1-6 task programs (lists of steps from the yield "
         "distinct case")
 ASSUMPTIONS = ["virtual time: timers fire when the driver reaches their "
                "deadline; real-time accuracy is out of scope",
-               "the threaded select hub is exercised in C07 (hand-off); here "
-               "the hub runs inline",
+               "the hand-off between real threads is C07's; here the hub runs "
+               "inline, or in its threaded configuration with the driver making "
+               "its thread's passes (one legal interleaving of the two threads)",
                "fairness over unbounded runs is not decided: every runnable "
                "task must have run by quiescence of a bounded program"]
 REQUIRED = ["programs", "steps_checked", "timed_resumes", "select_timeouts",
@@ -46,7 +47,8 @@ REQUIRED = ["programs", "steps_checked", "timed_resumes", "select_timeouts",
             "programs_on_real_descriptors",
             "select_same_descriptor_for_reading_and_writing",
             "descriptors_closed_right_after_their_wait",
-            "descriptor_numbers_reused"]
+            "descriptor_numbers_reused",
+            "programs_with_the_hub_as_its_own_thread"]
 TIMEOUT = {"quick": 1200, "thorough": 9000}
 
 _st = {}
@@ -54,12 +56,14 @@ HORIZON = 400.0
 SENTINEL = 1000.0
 
 
-def get_world (epoll):
+def get_world (epoll, hubmode=None):
   w = _st.get("w")
   if w is None:
     w = simnet.World(epoll=epoll)
+    if hubmode == "threaded": w.hub_as_its_own_thread()
     _st["w"] = w
     _st["epoll"] = epoll
+    _st["hubmode"] = hubmode
     sched = w.sched
     real_cycle = sched.cycle
     def cycle ():
@@ -69,7 +73,7 @@ def get_world (epoll):
         seen.add(id(t))
       return real_cycle()
     sched.cycle = cycle
-  elif _st["epoll"] != epoll:
+  elif _st["epoll"] != epoll or _st.get("hubmode") != hubmode:
     raise simnet.Inconclusive("one hub mode per process")
   return w
 
@@ -90,7 +94,8 @@ class TaskAbort (BaseException):
 
 def run_program (case, rep):
   import pox.lib.recoco.recoco as rc
-  w = get_world(case["epoll"])
+  w = get_world(case["epoll"], case.get("hubmode"))
+  if case.get("hubmode") == "threaded": rep.count("programs_with_the_hub_as_its_own_thread")
   clock = w.clock
   sched = w.sched
   def fire (key, what):
@@ -608,6 +613,12 @@ def _run_program (case, rep, w, clock, sched, fire, rc):
           rl = list(rl); wl = list(wl); xl = list(xl)
           remaining = timeout if timeout is not None else 1e9
           while True:
+            if case.get("hubmode") == "threaded":
+              # while the hub's thread waits in select the scheduler's thread
+              # has the processor: whatever is ready runs now, not after the
+              # wait (what it registers reaches the hub through the pinger)
+              while sched._ready and w.steps - steps0 <= 60000:
+                sched.cycle(); w.steps += 1
             res = vs(rl, wl, xl, 0)
             if res[0] or res[1] or res[2]: return res
             externals.sort(key=lambda e: e[0])
@@ -633,7 +644,7 @@ def _run_program (case, rep, w, clock, sched, fire, rc):
           try:
             while clock.now < end and w.steps - steps0 <= 60000:
               if sched._ready: sched.cycle()
-              else: w.hub.idle()
+              else: w.hub_pass()
               w.steps += 1
           except _Horizon:
             pass
@@ -758,7 +769,7 @@ def do_case (case, rep):
                   traceback.format_exc()[-900:], case)
     nt = True
   rep.case(repr((case["tasks"], case.get("timers"), case.get("drive"),
-                 case.get("realfd"), case.get("close_after"))).encode(),
+                 case.get("realfd"), case.get("close_after"), case.get("hubmode"))).encode(),
            nontrivial=bool(nt))
 
 
@@ -867,11 +878,19 @@ def plan (tier, seed):
     return ([dict(mode="small", epoll=e, shard=i, nshards=4) for e in (False, True)
              for i in range(4)] +
             [dict(mode="rand", epoll=e, n=250, sub=i) for e in (False, True)
-             for i in range(4)])
+             for i in range(4)] +
+            [dict(mode="small", epoll=False, shard=i, nshards=4, hubmode="threaded")
+             for i in range(2)] +
+            [dict(mode="rand", epoll=e, n=250, sub=10 + i, hubmode="threaded")
+             for e in (False, True) for i in range(2)])
   return ([dict(mode="small", epoll=e, shard=i, nshards=2) for e in (False, True)
            for i in range(2)] +
           [dict(mode="rand", epoll=e, n=12000, sub=i) for e in (False, True)
-           for i in range(14)])
+           for i in range(14)] +
+          [dict(mode="small", epoll=False, shard=i, nshards=2, hubmode="threaded")
+           for i in range(2)] +
+          [dict(mode="rand", epoll=e, n=12000, sub=20 + i, hubmode="threaded")
+           for e in (False, True) for i in range(6)])
 
 
 IO_STEPS = ("sel_to", "sel_data", "recv", "recv_to", "sel_two", "sel_w", "sel_rw", "reuse")
@@ -886,6 +905,7 @@ def run (spec, rep):
   first = True
   for case in g:
     case["epoll"] = spec["epoll"]
+    if spec.get("hubmode"): case["hubmode"] = spec["hubmode"]
     do_case(case, rep)
     if first: rep.sample(case); first = False
     c2 = dict(case); c2["drive"] = "natural"
